@@ -164,6 +164,8 @@ def mk_witness(chk, inst, stv, spec):
             if 'ok' not in res:
                 return True
             sol = chk.unhex(res['ok']['solution'], 'ommx.v1.Solution')
+            if sorted(res['ok'].get('used', exp['used'])) != exp['used']:
+                return True          # the set of variable ids evaluate reports as used
             return not solution_matches(sol, exp)
 
         def judge(res):
@@ -226,7 +228,8 @@ def concrete_expected(inst, state):
     return {'objective': float(fn_eval(inst['objective'], asg)), 'values': [float(v) for v in vals], 'ids': [c['id'] for c, r in cons],
             'reasons': [None if r is None else r['removed_reason'] for c, r in cons],
             'feasible_relaxed': all(hold(c, v) for (c, r), v in zip(cons, vals) if r is None),
-            'feasible': all(hold(c, v) for (c, r), v in zip(cons, vals)), 'state': rep}
+            'feasible': all(hold(c, v) for (c, r), v in zip(cons, vals)), 'state': rep,
+            'used': sorted(used), 'cused': [sorted(fn_ids(c['function'])) for c, r in cons]}
 
 
 def solution_matches(sol, exp):
@@ -238,6 +241,8 @@ def solution_matches(sol, exp):
     if not all(close(e['evaluated_value'], v) for e, v in zip(ecs, exp['values'])):
         return False
     if sol['feasible_relaxed'] != exp['feasible_relaxed'] or sol['feasible'] != exp['feasible']:
+        return False
+    if 'cused' in exp and [sorted(e['used_decision_variable_ids']) for e in ecs] != exp['cused']:
         return False
     st = dict(sol['state']['entries']) if sol['state'] else {}
     if sorted(st) != sorted(exp['state']):
